@@ -955,8 +955,8 @@ func (fr *Frame) doAppend(s, t Val, st *State, pos token.Pos) Val {
 		oldArr := sel(h, s.slRef())
 		na := fx.decls.Fresh("aarr", ash.sorts()[c])
 		// contents of the result window
-		fx.assume(st.guard, fmt.Sprintf("(forall ((i Int)) (! (=> (and (<= 0 i) (< i %s)) (= (select %s (+ %s i)) (select %s (+ %s i)))) :pattern ((select %s (+ %s i)))))",
-			s.slLen(), na, off, oldArr, s.slOff(), na, off))
+		fx.assume(st.guard, fmt.Sprintf("(forall ((i Int)) (! (=> (and (<= 0 i) (< i %s)) (= (select %s (+ %s i)) (select %s (+ %s i)))) :pattern ((select %s (+ %s i))) :pattern ((select %s (+ %s i)))))",
+			s.slLen(), na, off, oldArr, s.slOff(), na, off, oldArr, s.slOff()))
 		if n, ok := isNumLit(tn); ok && n <= 8 {
 			for i := int64(0); i < n; i++ {
 				fx.assume(st.guard, eq(sel(na, add(off, add(s.slLen(), num(i)))), tget(c, num(i))))
@@ -1314,7 +1314,8 @@ func (fx *FnCtx) mapLen(st *State, m Val) T {
 	h := fx.heapTerm(st, "ML|"+m.sh.key, arrSort(sInt))
 	n := fx.selHeap(h, m.ts[0])
 	// a nil map has length 0; lengths are never negative
-	fx.assumeOnce(and(le("0", n), le(n, maxLen)))
+	fx.assumeOnce(le("0", n))
+	fx.assumeOnce(le(n, maxLen))
 	return ite(eq(m.ts[0], "0"), "0", n)
 }
 
